@@ -32,9 +32,9 @@ ASSUMPTIONS = ['entry ids in the directory are distinct']
 MENU = [
     # name, eid, sev, flags, creator, subsys, commit, comp, sections
     ('m_serv.pel', 0x50000008, 0x40, 0xA000, 'O', 0x8D, '2024010203040506', 0x1000, ['PS', 'UD', 'LP', 'UDx', 'UDs', 'UDbig']),
-    ('a_hidden.pel', 0x50000007, 0x40, 0x6000, 'B', 0x10, '2024020304050607', 0x2000, ['PS']),
+    ('a_hidden.pel', 0x50000007, 0x40, 0x6000, 'B', 0x10, '2024020304050607', 0x2000, ['PSw']),
     ('.Z_info', 0x50000001, 0x00, 0x0000, 'O', 0x20, '2024030405060708', 0x3000, ['PS']),
-    ('B_infosa.txt', 0x50000006, 0x00, 0x8000, 'H', 0x30, '2024040506070809', 0x4142, ['PS']),
+    ('B_infosa.txt', 0x50000006, 0x00, 0x8000, 'H', 0x30, '2024040506070809', 0x4142, ['PSw', 'MT']),
     ('k_term.pel', 0x50000002, 0x51, 0x2000, 'O', 0x40, '2024050607080910', 0x5000, ['PSc', 'MT']),
     ('K_term.pel', 0x50000005, 0x20, 0x0000, 'T', 0x50, '2024060708091011', 0x6000, ['PS']),
     ('y_nosrc.pel', 0x50000003, 0x10, 0x2000, 'O', 0x60, '2024070809101112', 0x7000, ['UD', 'UDbig']),
@@ -69,6 +69,9 @@ def pel_bytes(i):
         elif t == 'LP':
             # name length 5 + one target: 1 pad byte (a decoder that mis-skips the padding loses the sections after it)
             sections.append({'t': 'LP', 'name': 'lpar5', 'targets': [0x0001]})
+        elif t == 'PSw':
+            # a primary SRC that declares five valid words (what the SRC parser is handed must not depend on it)
+            sections.append({'t': 'PS', 'ascii': ('BD%02X%04X' % (0x8D + i, 0x1000 + i)).ljust(32), 'wc': 5})
         elif t == 'UDbig':
             # a log larger than any plausible read buffer (the modes must agree on it as on a small one)
             sections.append({'t': 'UD', 'comp': 0x4142, 'payload': bytes((i + 3 * j) & 0xff for j in range(5000)).hex()})
